@@ -5,12 +5,12 @@
      nil    the constructed iterator is nil                                   (I layer from here on)
      cc     user-function calls made while constructing
      steps  the documented loop: [v = Value(), ok = Next(), vc / nc = calls made by each]
-     post   <<Value()>> of the exhausted iterator (or <<"panic">>)
+     post   Value() of the exhausted iterator: [panic, v]
    and, once, the function tables on a small domain so that the Go harness can check that its tables are the same. *)
 EXTENDS Iter, Json, Randomization
 CONSTANTS Shape, Width,
           BaseSet, WrapsOf(_, _),   \* as in IterMC
-          PerBase      \* 0: every wrapping of every base expression; n > 0: a random n-subset of the wrappings of each
+          PerBase      \* 0: every expression of the universe; n > 0: a random n-subset of the last wrappings of each base
 VARIABLES expr, phase
 
 SeqBaseT == SeqBase(Shape, Width)
@@ -21,11 +21,14 @@ CaseOf(kind, e) == LET r == Run(e)
                    IN [t |-> "case", kind |-> kind, expr |-> e, list |-> l,
                        fe |-> [k1 \in 1..Len(l) + 1 |-> ForEachL(l, k1 - 1)],
                        nil |-> r.nil, cc |-> r.cc, steps |-> r.steps, post |-> r.post]
-Thin(W) == IF PerBase = 0 \/ Cardinality(W) <= PerBase THEN W ELSE RandomSubset(PerBase, W)
+Final(W) == \E w \in W : w[1] \in {"seq", "pair"}
+Thin(W) == IF PerBase = 0 \/ ~Final(W) \/ Cardinality(W) <= PerBase THEN W ELSE RandomSubset(PerBase, W)
 
 Init == \E b \in BaseSet : phase = b[1] /\ expr = b[2]
 Wrap == phase \notin {"seq", "pair"} /\ \E w \in Thin(WrapsOf(phase, expr)) : phase' = w[1] /\ expr' = w[2]
-Emit == phase \in {"seq", "pair"} => PrintT(ToJson(CaseOf(phase, expr)))
+\* (intermediate expressions of a two-round universe print a marker, so that the orchestrator can tell that no line was lost)
+Emit == IF phase \in {"seq", "pair"} THEN PrintT(ToJson(CaseOf(phase, expr)))
+        ELSE phase \in {"pick2", "pick2-pair", "pick2-mix"} => PrintT(ToJson([t |-> "mid"]))
 
 TblLo == -3
 TblN == 16
